@@ -32,6 +32,11 @@ def grid_of(code):
         return fm.NoGrid()
     if code in ("N1a", "N1b"):
         return fm.NoGrid(data_shape=(3,) if code == "N1a" else (5,))
+    if code in ("Uc", "Up"):
+        # one triangulated quad with two inner nodes: 6 nodes and 6 triangles, so cell data and point data have the same shape
+        pts = [[0.0, 0.0], [3.0, 0.0], [3.0, 2.0], [0.0, 2.0], [1.0, 1.0], [2.0, 1.0]]
+        cells = [[0, 1, 4], [4, 1, 5], [1, 2, 5], [2, 3, 5], [3, 4, 5], [3, 0, 4]]
+        return fm.UnstructuredGrid(pts, cells, [fm.CellType.TRI] * 6, data_location="CELLS" if code == "Uc" else "POINTS")
     return mg.make_grid(GRIDS[code])
 
 
@@ -48,7 +53,7 @@ def mask_of(code, gcode):
         return fm.Mask.NONE
     if code is None:
         return None
-    if gcode in (None, "N0", "N1a", "N1b"):
+    if gcode in (None, "N0", "N1a", "N1b", "Uc", "Up"):
         return None
     if code == "rawA":
         # the *array* of mask A as laid out for grid G, reused as it is on another layout
@@ -89,6 +94,29 @@ class Src(fm.TimeComponent):
 
     def _update(self):
         self._time = self._next_time()
+
+    def _finalize(self):
+        pass
+
+
+class StaticSrc(fm.Component):
+    """parameter provider: one static output, published once during connect"""
+
+    def __init__(self, name, info, payload):
+        super().__init__()
+        self._name, self.info0, self.payload, self.repush = name, info, payload, False
+
+    def _initialize(self):
+        self.outputs.add(name="out", info=self.info0, static=True)
+        self.create_connector()
+
+    _connect = Src._connect
+
+    def _validate(self):
+        pass
+
+    def _update(self):
+        pass
 
     def _finalize(self):
         pass
@@ -163,8 +191,8 @@ class Relay(fm.TimeComponent):
 def grid_compatible(a, b):
     if a is None or b is None:
         return True
-    if a.startswith("N") or b.startswith("N"):
-        return a == b  # grid-less data: same dimensionality and extents
+    if a[0] in "NU" or b[0] in "NU":
+        return a == b  # grid-less data: same dimensionality and extents; the unstructured mesh: same data location
     return GRIDS[a]["dims"] == GRIDS[b]["dims"]
 
 
@@ -201,7 +229,7 @@ class C07(Property):
 
     def gen(self, rnd, i, tier):
         def side(is_prod):
-            g = rnd.choice([None, "G", "G", "Gr", "Gf", "X", "N0", "N1a", "N1b"])
+            g = rnd.choice([None, "G", "G", "Gr", "Gf", "X", "N0", "N1a", "N1b", "G", "Gr", "Uc", "Up"])
             return dict(
                 time=rnd.random() < 0.7,
                 grid=g,
@@ -217,7 +245,9 @@ class C07(Property):
             # bias toward compatible combinations so that successful exchanges are explored as often as rejections
             for c in cons:
                 if rnd.random() < 0.8:
-                    c["grid"] = rnd.choice([None, p["grid"], "Gr" if p["grid"] == "G" else p["grid"], "Gf" if p["grid"] == "G" else p["grid"]]) if p["grid"] else rnd.choice(["G", "Gr", "Gf", "N0"])
+                    c["grid"] = rnd.choice([None, p["grid"], "Gr" if p["grid"] == "G" else p["grid"], "Gf" if p["grid"] == "G" else p["grid"]]) if p["grid"] else rnd.choice(["G", "Gr", "Gf", "N0", "Uc"])
+                    if (p["grid"] or "-")[0] == "U" and rnd.random() < 0.3:
+                        c["grid"] = rnd.choice(["Uc", "Up"])
                 if rnd.random() < 0.8:
                     c["units"] = rnd.choice([None, "m", "km"]) if p["units"] in ("m", "km") else rnd.choice([None, p["units"]])
                 if rnd.random() < 0.8:
@@ -232,7 +262,12 @@ class C07(Property):
         order = list(range(1 + ncons))
         rnd.shuffle(order)
         spec = dict(prod=p, cons=cons, adapter=adapter, order=order)
-        if adapter in (None, "scale") and rnd.random() < 0.25:
+        if adapter in (None, "scale") and rnd.random() < 0.12:
+            # static output (parameter provider); the consumers are ordinary timed inputs
+            spec["static"] = True
+            for c in cons:
+                c["time"] = True
+        elif adapter in (None, "scale") and rnd.random() < 0.25:
             # producer hands its metadata to every try_connect call; consumers may declare theirs some rounds late
             spec["repush"] = True
             spec["late"] = rnd.choice([None, 0, 1]) if ncons == 2 else None
@@ -258,6 +293,8 @@ class C07(Property):
         for c in cons:
             cgrid, punits, pmask = c["grid"], p["units"], p["mask"]
             src_grid = pgrid
+            if ada in ("v2g", "g2v", "regrid") and ((pgrid or "-")[0] == "U" or (cgrid or "-")[0] == "U"):
+                return "unconstrained", None, True  # the unstructured mesh is only used on plain links
             if ada == "relay" and (not ptime or pgrid is None or pfoo == "fill" or pmask != "FLEX"):
                 # the relay takes everything from the producer: only fully declared producers are judged through it
                 return "unconstrained", None, True
@@ -302,10 +339,10 @@ class C07(Property):
             funits = c["units"] or eunits
             # masks (on a grid-less link fixed masks cannot be expressed in this catalogue)
             pm, cm = p["mask"], c["mask"]
-            NOG = (None, "N0", "N1a", "N1b")
+            NOG = (None, "N0", "N1a", "N1b", "Uc", "Up")
             if (pm in ("A", "B") and (pgrid in NOG)) or (cm in ("A", "B", "rawA") and (cgrid in NOG and pgrid in NOG)):
                 return "unconstrained", None, True
-            if cm in ("A", "B", "rawA") and (cgrid in ("N0", "N1a", "N1b") or (cgrid is None and pgrid in NOG)):
+            if cm in ("A", "B", "rawA") and (cgrid in ("N0", "N1a", "N1b", "Uc", "Up") or (cgrid is None and pgrid in NOG)):
                 return "unconstrained", None, True
             if cm == "rawA" and (cgrid or pgrid) not in ("G", "Gf"):
                 return "unconstrained", None, True  # raw array of other shape: constructing the Info already fails
@@ -343,8 +380,8 @@ class C07(Property):
                 payload = np.ma.array(payload, mask=located_mask(p["grid"], 0.0 if p["mask"] == "A" else 1.0))
         else:
             # a producer that leaves its grid to the consumer publishes in the consumer's grid
-            payload = None if p["grid"] is None else (np.arange(3.0) if p["grid"] == "N1a" else (np.arange(5.0) if p["grid"] == "N1b" else 7.0))
-        prod = Src("P", pinfo, payload, repush=bool(spec.get("repush")))
+            payload = None if p["grid"] is None else (np.arange(3.0) if p["grid"] == "N1a" else (np.arange(5.0) if p["grid"] == "N1b" else (np.arange(6.0) if p["grid"] in ("Uc", "Up") else 7.0)))
+        prod = StaticSrc("P", pinfo, payload) if spec.get("static") else Src("P", pinfo, payload, repush=bool(spec.get("repush")))
         dsts = []
         for k, c in enumerate(cons):
             try:
@@ -389,7 +426,9 @@ class C07(Property):
         out.count("adapter_" + str(ada))
         if spec.get("repush"):
             out.count("metadata_handed_over_on_every_round")
-        tag = f"producer {p}, consumer(s) {cons}, adapter {ada}, order {spec['order']}" + (f", producer re-hands its metadata every round, consumer {spec['late']} declares its metadata after the other one has exchanged" if spec.get("repush") else "")
+        if spec.get("static"):
+            out.count("static_outputs")
+        tag = f"producer {p}, consumer(s) {cons}, adapter {ada}, order {spec['order']}" + (", static output" if spec.get("static") else "") + (f", producer re-hands its metadata every round, consumer {spec['late']} declares its metadata after the other one has exchanged" if spec.get("repush") else "")
         if exp_outcome == "unconstrained":
             out.notes.append("unconstrained combination -> " + got.split(":")[0])
             out.count("unconstrained_combinations")
@@ -478,14 +517,14 @@ class C07(Property):
         else:
             out.count("rejected_exchanges")
         if filled or conflict:
-            out.key = repr((p, cons, ada, len(cons) > 1 and spec["order"], spec.get("repush") and (1, spec["late"])))
+            out.key = repr((p, cons, ada, len(cons) > 1 and spec["order"], spec.get("repush") and (1, spec["late"]), bool(spec.get("static"))))
         if len(cons) == 2:
             out.count("two_consumer_cases")
         return out
 
     def coverage_gaps(self, counters, tier):
         need = ["exchanges", "successful_exchanges", "rejected_exchanges", "two_consumer_cases", "fixed_mask_metadata_checked", "data_checked_against_metadata",
-                "adapter_None", "adapter_scale", "adapter_v2g", "adapter_g2v", "adapter_regrid", "adapter_sum", "adapter_relay", "relay_links_checked", "metadata_handed_over_on_every_round"]
+                "adapter_None", "adapter_scale", "adapter_v2g", "adapter_g2v", "adapter_regrid", "adapter_sum", "adapter_relay", "relay_links_checked", "metadata_handed_over_on_every_round", "static_outputs"]
         return [f"{k} never observed" for k in need if not counters.get(k)]
 
 
